@@ -195,7 +195,9 @@ class _P:
             if name in ("module", "callable"):                          # x6: known by class name and fields only
                 return WireObj(name, fields)
             if name == "Message":                                        # x7: the real message is re-parsed from its source
-                return _x7_parse(fields["source"])
+                m_ = _x7_parse(fields["source"])
+                m_.__dict__["_x9_source"] = fields["source"]             # x9: kept for the answer of `_get_payload__io`
+                return m_
             cls, _ = _OBJ_CLASSES[name]
             if issubclass(cls, tuple):
                 return cls(**fields)
@@ -2348,6 +2350,139 @@ X9_TOK_THEOREMS = ["Src.Tokenizer.check_translated", "Src.Tokenizer.check_eq_mod
                    "Src.Tokenizer.enclosing_tokens__exit_translated", "Src.Tokenizer.enclosing_tokens__exit_eq_model",
                    "Src.Tokenizer.wf_new", "Src.Tokenizer.wf_preserved"]
 X9_TOK_MODULE = "PkgProofs.Props.Src.Tokenizer"
+
+# ---- x9: `parse_email` (C18).  The standard-library parser answers through the oracle table under the key the translator derives
+# from the source text of the call (`pysrc._X9MailRewrite.parser_call`); the answer is the wire form of the message the *real*
+# call returned (captured while the real function runs), `str.lower` answers for every header name.
+def _x9_wire_message(parsed, data):
+    """like `_x7_message`, from a message object (which is left alone)"""
+    import copy
+    import email.header
+    hdrs = []
+    for k, v in parsed.items():
+        if isinstance(v, email.header.Header):
+            try:
+                hv = WireObj("Header", {"chunks": [b for b, _ in email.header.decode_header(v)]})
+            except Exception as e:
+                hv = WireObj("HeaderErr", {"cls": type(e).__name__})
+        else:
+            hv = v
+        hdrs.append((k, hv))
+    other = WireObj("other", {})
+
+    def pl(m, **kw):
+        try:
+            p = m.get_payload(**kw)
+        except Exception as e:
+            return Raise(type(e).__name__)
+        return p if isinstance(p, (str, bytes)) else other
+    fields = {"headers": hdrs, "payload": pl(parsed), "decoded_cte": pl(copy.deepcopy(parsed), decode=True)}
+    stripped = copy.deepcopy(parsed)
+    del stripped["content-transfer-encoding"]
+    fields["decoded"] = pl(stripped, decode=True)
+    fields["source"] = data
+    return WireObj("Message", fields)
+
+
+def _x9_parser_keys():
+    """oracle keys of the parser calls in the current source of `parse_email`: {method name: key}"""
+    import ast as _ast
+    import inspect as _inspect
+    import textwrap as _tw
+    from packaging import metadata as MD
+    from translators import pysrc as _PS
+
+    class _Stub:
+        globals = vars(MD)
+        x9_msgs = set()
+    rw = _PS._X9MailRewrite(_Stub())
+    rw.fn_locals = set()
+    out = {}
+    node = _ast.parse(_tw.dedent(_inspect.getsource(MD.parse_email)))
+    for n in _ast.walk(node):
+        pc = rw.parser_call(n)
+        if pc is not None:
+            out.setdefault(n.func.attr, []).append(pc[0])
+    return out
+
+
+def _x9_parse_email_oracle(data):
+    import copy
+    import email.parser
+    from packaging import metadata as MD
+    seen = []
+    saved = (email.parser.Parser.parsestr, email.parser.BytesParser.parsebytes)
+
+    def wrap(orig, meth):
+        def w(self, text, *a, **kw):
+            m = orig(self, text, *a, **kw)
+            if text is data or (type(text) is type(data) and text == data):
+                seen.append((meth, _x9_wire_message(copy.deepcopy(m), data), [k for k in m.keys()]))
+            return m
+        return w
+    email.parser.Parser.parsestr = wrap(saved[0], "parsestr")
+    email.parser.BytesParser.parsebytes = wrap(saved[1], "parsebytes")
+    try:
+        try:
+            MD.parse_email(data)
+        except Exception:
+            pass
+    finally:
+        email.parser.Parser.parsestr, email.parser.BytesParser.parsebytes = saved
+    oracle = []
+    keys = _x9_parser_keys()
+    names = []
+    for meth, wire, ks in seen[:1]:          # the outermost call (BytesParser.parsebytes goes through Parser.parsestr-like paths)
+        for key in keys.get(meth, []):
+            oracle.append((key, (data,), wire))
+        names = ks
+    done = set()
+    for k in names:
+        if k not in done:
+            done.add(k)
+            oracle.append(("str.lower", (k,), k.lower()))
+    return oracle
+
+
+def _x9_mail_data(rng):
+    from gen import metadata as GM
+    doc = GM.document(rng, wellformed=rng.random() < 0.4)
+    if rng.random() < 0.3:                      # a Content-Transfer-Encoding header and a body it would rewrite
+        doc["headers"].append([rng.choice(["Content-Transfer-Encoding", "content-transfer-encoding", "CONTENT-TRANSFER-ENCODING"]),
+                               ["t", rng.choice(["base64", "quoted-printable", "8bit", "x-uuencode", "BASE64"])]])
+        if rng.random() < 0.7:
+            doc["body"] = ["t", rng.choice(["aGVsbG8=\n", "=41=42 c\n", "plain", "aGVsbG8", "=FF\n", "/w==\n"])]
+    return GM.build_doc(doc)
+
+
+def _g_parse_email(rng):
+    data = _x9_mail_data(rng)
+    return [_x9_parse_email_oracle(data), data]
+
+
+def _g_get_payload_io(rng):
+    return _g_get_payload(rng)
+
+
+def _x9_wrap_io(f):
+    """`_get_payload(msg, source)`: what it returned or raised, and the message afterwards"""
+    def w(msg, source):
+        src = msg.__dict__.get("_x9_source")
+        before = _x9_wire_message(msg, src)          # the payload fields belong to the value; only the header list changes
+        try:
+            r = f(msg, source)
+        except Exception as e:
+            r = WireObj("raised", {"exc": WireObj(type(e).__name__, {})})
+        fields = dict(before.fields)
+        fields["headers"] = _x9_wire_message(msg, src).fields["headers"]
+        return (r, WireObj("Message", fields))
+    return w
+
+
+FUNCS["parse_email"] = (_MDM, "parse_email", _g_parse_email)
+EXT_FUNCS |= {"parse_email"}
+FUNCS["_get_payload__io"] = (_MDM, "_get_payload", _g_get_payload_io)
+X7_WRAP["_get_payload__io"] = _x9_wrap_io
 # ------------------------------------------------------------------------------------------------ x9 end
 
 
